@@ -15,6 +15,7 @@ describes.
 -/
 import Pandora.Gen.C05Engine
 import Pandora.Model.C05Src
+import Pandora.Model.C05Cli
 
 namespace Pandora.Bridge.C05Engine
 open Pandora.Model.C05 Pandora.Gen.C05Engine
@@ -63,7 +64,8 @@ def firstComm : Path → Option String
 /-- the cases of the select in `onErrAwaited` -/
 def onErrComms : List String := (onErrAwaited.filterMap firstComm).eraseDups
 
-theorem onErrComms_eq : onErrComms = ["awaitErr <- err", "<-poolCtx.Done()"] := by decide
+/-- (`‹arg0›`: the error handed to `onErrAwaited`; local variables are spelled by what defines them, see gen/area_c05engine.go) -/
+theorem onErrComms_eq : onErrComms = ["awaitErr <- ‹arg0›", "<-poolCtx.Done()"] := by decide
 
 /-- every way through `onErrAwaited` goes through the select (no path drops the error without waiting) -/
 theorem onErr_always_selects : onErrAwaited.all (fun p => (firstComm p).isSome) = true := by decide
@@ -92,11 +94,19 @@ theorem poolRun_one_waitDone : poolRun.all (fun p => waitDoneCalls p == 1) = tru
 
 theorem poolRun_outcomes :
     poolRun.map (fun p => (p.failed, p.count (.call "onWaitDone"), p.has (.call "awaitRunAsync"), p.retText)) =
-      [(some "warmUpGun", 1, false, "err"), (some "runAsync", 1, false, "err"),
-       (none, 0, true, "Err(…)"), (none, 0, true, "err"), (none, 0, true, "nil")] := by decide
+      [(some "warmUpGun", 1, false, "‹warmUpGun(arg0)›"), (some "runAsync", 1, false, "‹runAsync(arg0)#1›"),
+       (none, 0, true, "Err(…)"), (none, 0, true, "‹rx:awaitRunAsync#0›"), (none, 0, true, "nil")] := by decide
+
+/-- the final select of `Pool.Run`: the pool context, or the channel `awaitRunAsync` returned; a received value is the
+result, a closed channel is success -/
+theorem poolRun_select :
+    (poolRun.filter (fun p => p.has (.call "awaitRunAsync"))).map (fun p => (firstComm p, p.filter (fun e => match e with | .cond _ => true | .ncond _ => true | _ => false))) =
+      [(some "<-‹arg0›.Done()", []),
+       (some "‹rx:awaitRunAsync#0›, ‹rx:awaitRunAsync#1› := <-‹awaitRunAsync(runAsync#0)›", [.cond "‹rx:awaitRunAsync#1›"]),
+       (some "‹rx:awaitRunAsync#0›, ‹rx:awaitRunAsync#1› := <-‹awaitRunAsync(runAsync#0)›", [.ncond "‹rx:awaitRunAsync#1›"])] := by decide
 
 /-- the deferred `cancel()` of the pool context is registered before anything else on every path -/
-theorem poolRun_cancels : poolRun.all (fun p => p.head? == some (.dfr "cancel")) = true := by decide
+theorem poolRun_cancels : poolRun.all (fun p => p.head? == some (.dfr "‹WithCancel(arg0)#1›")) = true := by decide
 
 /-- the await goroutine: runs `awaitRun`, and its deferred function closes `awaitErr` and calls `onWaitDone`, once -/
 theorem awaitRunAsync_goroutine :
@@ -131,18 +141,18 @@ def startEvents (p : Path) : List Ev := p.filter fun e => match e with | .go _ =
 
 theorem startInstances_outcomes :
     startInstances.map startEvents =
-      [[], [.fail "newInstance"], [.go "Close", .go "Run", .go "send:runRes"],
-       [.go "Close", .go "Run", .go "send:runRes", .go "runNewInstance", .go "send:runRes"]] := by decide
+      [[], [.fail "newInstance"], [.go "Close", .go "Run", .go "send:‹arg3›"],
+       [.go "Close", .go "Run", .go "send:‹arg3›", .go "runNewInstance", .go "send:‹arg3›"]] := by decide
 
 theorem instanceClose_closes_gun : instanceClose.all (fun p => p.has (.call "closeGun")) = true := by decide
 
 /-- `closeGun`: `Close` is called iff the gun is an `io.Closer` -/
-theorem closeGun_outcomes : closeGun.map (fun p => (p.has (.cond "ok"), p.has (.call "Close"))) =
+theorem closeGun_outcomes : closeGun.map (fun p => (p.has (.cond "‹assert:io.Closer#1›"), p.has (.call "Close"))) =
     [(false, false), (true, true)] := by decide
 
 /-- `instance.Run` recovers a panic of `Shoot` into its (named) result -/
 theorem instanceRun_recovers :
-    instanceRunDefers.all (fun p => p.has (.dfr "recover") && p.has (.dfr "if:r != nil") && p.has (.dfr "set:<result>=Errorf")) = true := by
+    instanceRunDefers.all (fun p => p.has (.dfr "recover") && p.has (.dfr "if:‹recover› != nil") && p.has (.dfr "set:<result>=Errorf")) = true := by
   decide
 
 /-! ### the await loop -/
@@ -201,12 +211,12 @@ theorem await_runRes_case : awaitCase await_runRes = ⟨0, ["runCtx"], ["instanc
 theorem await_one_shot :
     await_providerErr.all (fun p => p.has (.set "providerErr=nil")) = true ∧
     await_aggregatorErr.all (fun p => p.has (.set "aggregatorErr=nil")) = true ∧
-    await_startRes.all (fun p => p.has (.set "startRes=nil") && p.has (.set "startedInstances=res.Started")) = true ∧
+    await_startRes.all (fun p => p.has (.set "startRes=nil") && p.has (.set "startedInstances=‹rx:startRes›.Started")) = true ∧
     await_runRes.all (fun p => p.count (.inc "awaitedInstances") == 1) = true := by decide
 
 /-- the out-of-ammo result of an instance is no error: it cancels the instance start unless that has finished -/
 theorem await_runRes_ooa :
-    (await_runRes.filter (fun p => p.has (.cond "res.Err == outOfAmmoErr"))).map
+    (await_runRes.filter (fun p => p.has (.cond "‹rx:runRes›.Err == outOfAmmoErr"))).map
         (fun p => (p.has (.cond "isStartFinished"), p.has (.call "instanceStartCancel"), p.has (.call "onErrAwaited"))) =
       [(false, true, false), (true, false, false)] := by decide
 
@@ -280,7 +290,7 @@ theorem checkAllGuard_eq (st : Bool) (a b : Nat) :
 a result that is still in the closed channel is a `log.Panic` -/
 theorem checkAll_effects :
     checkAllEffects.map (fun p => (p.count (.call "close:runRes"), p.count (.set "runRes=nil"), p.count (.dec "toWait"),
-        p.count (.call "runCancel"), p.has (.cond "ok"), p.has (.call "Panic"))) =
+        p.count (.call "runCancel"), p.has (.cond "‹rx:runRes#1›"), p.has (.call "Panic"))) =
       [(1, 1, 1, 1, true, true), (1, 1, 1, 1, false, false)] := by decide
 
 theorem checkAll_src (s : State) :
@@ -302,49 +312,67 @@ def callEvents (p : Path) : List String := p.filterMap fun e => match e with | .
 /-- the same elements, in any order -/
 def sameElems (a b : List String) : Bool := a.length == b.length && a.all b.contains && b.all a.contains
 
-/-- the run context is a child of the pool context and the instance-start context a child of the run context (in
-this order); the shared schedule is built before anything is started, and its failure starts nothing -/
+/-- the run context is a child of the pool context (`‹arg0›`, the parameter) and the instance-start context a child of
+the run context (in this order); the shared schedule is built before anything is started, and its failure starts
+nothing -/
 theorem runAsync_contexts :
     runAsync.map (fun p => (callEvents p, p.failed, goEvents p == [])) =
-      [(["WithCancel(poolCtx)", "WithCancel(runCtx)", "buildNewInstanceSchedule"], some "buildNewInstanceSchedule", true),
-       (["WithCancel(poolCtx)", "WithCancel(runCtx)", "buildNewInstanceSchedule"], none, false)] := by decide
+      [(["WithCancel(‹arg0›)", "WithCancel(‹WithCancel(arg0)#0›)", "buildNewInstanceSchedule"], some "buildNewInstanceSchedule", true),
+       (["WithCancel(‹arg0›)", "WithCancel(‹WithCancel(arg0)#0›)", "buildNewInstanceSchedule"], none, false)] := by decide
+
+/-- the value stored in a field of the handle `runAsync` returns -/
+def handleField (f : String) : String := ((runAsyncHandle.find? (·.1 == f)).map (·.2)).getD "?"
+
+/-- the handle carries the contexts under the names the await loop uses them by: `poolCtx` is the parameter, `runCtx` /
+`runCancel` the first derived context and its cancel, `instanceStartCtx` / `instanceStartCancel` the context derived from
+THAT and its cancel -/
+theorem runAsync_handle_contexts :
+    (["poolCtx", "runCtx", "runCancel", "instanceStartCtx", "instanceStartCancel"].map handleField) =
+      ["‹arg0›", "‹WithCancel(arg0)#0›", "‹WithCancel(arg0)#1›", "‹WithCancel(WithCancel#0)#0›", "‹WithCancel(WithCancel#0)#1›"] := by
+  decide
 
 /-- what is started (in whatever order): provider and aggregator on the run context, the start goroutine on the
-instance-start context, each sending its result on its own channel -/
+instance-start context, each sending its result on the channel the handle stores in the field the await loop reads it
+from; the four channels are different ones -/
 theorem runAsync_starts :
     (runAsync.filter (fun p => p.failed == none)).map (fun p => sameElems (goEvents p)
-        ["Provider.Run(runCtx)", "send:providerErr", "Aggregator.Run(runCtx)", "send:aggregatorErr",
-         "startInstances(instanceStartCtx)", "send:startRes"]) = [true] := by decide
+        ["Provider.Run(" ++ handleField "runCtx" ++ ")", "send:" ++ handleField "providerErr",
+         "Aggregator.Run(" ++ handleField "runCtx" ++ ")", "send:" ++ handleField "aggregatorErr",
+         "startInstances(" ++ handleField "instanceStartCtx" ++ ")", "send:" ++ handleField "startRes"]) = [true] ∧
+    (["providerErr", "aggregatorErr", "startRes", "runRes"].map handleField).eraseDups.length = 4 ∧
+    !(["providerErr", "aggregatorErr", "startRes", "runRes"].map handleField).contains "?" := by decide
 
 /-- a result is sent right after the call that produces it -/
 def sentAfter (p : Path) (call chan : String) : Bool := ((p.after (.go call)).head? == some (.go chan))
 
 theorem runAsync_result_channels :
     (runAsync.filter (fun p => p.failed == none)).all (fun p =>
-      sentAfter p "Provider.Run(runCtx)" "send:providerErr" && sentAfter p "Aggregator.Run(runCtx)" "send:aggregatorErr" &&
-      sentAfter p "startInstances(instanceStartCtx)" "send:startRes") = true := by decide
+      sentAfter p ("Provider.Run(" ++ handleField "runCtx" ++ ")") ("send:" ++ handleField "providerErr") &&
+      sentAfter p ("Aggregator.Run(" ++ handleField "runCtx" ++ ")") ("send:" ++ handleField "aggregatorErr") &&
+      sentAfter p ("startInstances(" ++ handleField "instanceStartCtx" ++ ")") ("send:" ++ handleField "startRes")) = true := by decide
 
 /-- with `rps-per-instance` the factory itself goes to the instances (the model's `.sched none`, failures show up in
 `newInstance`); otherwise ONE schedule is built here, its failure is the failure of `runAsync` (`.sched (some e)`),
 and when it runs out its callback cancels the instance start unless that is already done (`.rpsFinished`) -/
 theorem buildSchedule_outcomes :
-    buildNewInstanceSchedule.map (fun p => (p.has (.cond "p.RPSPerInstance"), callEvents p, p.failed)) =
+    buildNewInstanceSchedule.map (fun p => (p.has (.cond "‹recv›.RPSPerInstance"), callEvents p, p.failed)) =
       [(true, [], none), (false, ["NewRPSSchedule"], some "NewRPSSchedule"),
        (false, ["NewRPSSchedule", "NewCallbackOnFinishSchedule"], none)] ∧
     sharedScheduleFinished.map (fun p => (firstComm p, callEvents p)) =
-      [(some "<-startCtx.Done()", []), (some "default", ["cancelStart"])] := by decide
+      [(some "<-‹arg0›.Done()", []), (some "default", ["‹arg1›"])] := by decide
 
 /-! ### `Engine.Run`, `Engine.Wait`, `newPool` -/
 
 /-- per pool: `e.wait.Add(1)`, the pool gets `e.wait.Done` as its `onWaitDone`, `pool.Run` in a goroutine whose result
 is sent on `runRes` unless the engine context is done -/
 def enginePoolEvents (p : Path) : List Ev :=
-  p.filter fun e => match e with | .call "Add" => true | .call "newPool(e.wait.Done)" => true | .go _ => true | _ => false
+  p.filter fun e => match e with | .call "Add" => true | .call "newPool(‹recv›.wait.Done)" => true | .go _ => true | _ => false
 
 theorem engineRun_pool_start :
     (engineRun.map enginePoolEvents).eraseDups =
-      [[], [.call "Add", .call "newPool(e.wait.Done)", .go "Run", .go "comm:runRes <- poolRunResult{ID: pool.ID, Err: err}",
-            .go "comm:<-ctx.Done()"]] := by decide
+      [[], [.call "Add", .call "newPool(‹recv›.wait.Done)", .go "Run",
+            .go "comm:‹make(…,…)› <- poolRunResult{ID: ‹newPool(log,metrics,wait.Done,range#1)›.ID, Err: ‹Run(arg0)›}",
+            .go "comm:<-‹arg0›.Done()"]] := by decide
 
 theorem newPool_waitDone : newPoolWaitDoneParam = 2 := by decide
 
@@ -356,32 +384,96 @@ def afterLastLoop : Path → Path
 
 def engineResultEvents (p : Path) : List Ev :=
   (if p.contains .loop then afterLastLoop p else p).filter fun e =>
-    match e with | .comm _ => true | .cond _ => true | .ncond _ => true | .ret _ => true | .call "WithMessage(res.Err)" => true | _ => false
+    match e with | .comm _ => true | .cond _ => true | .ncond _ => true | .ret _ => true | .call "WithMessage(‹rx:make›.Err)" => true | _ => false
 
 /-- a pool error is returned (wrapped) unless the engine context is done, then `ctx.Err()`; `ctx.Done()` ends the
 loop with `ctx.Err()`; a nil pool result continues; after the loop the result is nil: the model's `engRun` -/
 theorem engineRun_results :
     ((engineRun.map engineResultEvents).filter (fun p => p.any fun e => match e with | .comm _ => true | _ => false)).eraseDups =
-      [[.comm "res := <-runRes", .cond "res.Err != nil", .comm "<-ctx.Done()", .ret "Err(…)"],
-       [.comm "res := <-runRes", .cond "res.Err != nil", .comm "default", .call "WithMessage(res.Err)", .ret "WithMessage(…)"],
-       [.comm "<-ctx.Done()", .ret "Err(…)"],
-       [.comm "res := <-runRes", .ncond "res.Err != nil", .ret "nil"]] := by decide
+      [[.comm "‹rx:make› := <-‹make(…,…)›", .cond "‹rx:make›.Err != nil", .comm "<-‹arg0›.Done()", .ret "Err(…)"],
+       [.comm "‹rx:make› := <-‹make(…,…)›", .cond "‹rx:make›.Err != nil", .comm "default", .call "WithMessage(‹rx:make›.Err)", .ret "WithMessage(…)"],
+       [.comm "<-‹arg0›.Done()", .ret "Err(…)"],
+       [.comm "‹rx:make› := <-‹make(…,…)›", .ncond "‹rx:make›.Err != nil", .ret "nil"]] := by decide
 
-theorem engineRun_cancels : engineRun.all (fun p => p.head? == some (.dfr "cancel")) = true := by decide
+/-- the variant of the goroutine system `Sys` read off the source: a pool goroutine of `Engine.Run` hands its result
+over inside a `select` that also listens on the engine context -/
+def srcEngCfg : Sys.EngCfg :=
+  ⟨(engineRun.filter (·.contains (.go "Run"))).all (·.contains (.go "comm:<-‹arg0›.Done()"))⟩
+
+theorem srcEngCfg_code : srcEngCfg = Sys.EngCfg.code := by decide
+
+theorem engineRun_cancels : engineRun.all (fun p => p.head? == some (.dfr "‹WithCancel(arg0)#1›")) = true := by decide
 
 theorem engineWait_waits : engineWait = [[.call "Wait", .ret ""]] := by decide
 
 /-! ### the CLI's reaction to the result of `Engine.Run` -/
 
 /-- `runEngine` forwards the result of `Engine.Run` -/
-theorem cli_forwards : cliRunEngine.all (fun p => (p.after (.call "Run")).contains (.send "errs")) = true := by decide
+theorem cli_forwards : cliRunEngine.all (fun p => (p.after (.call "Run")).contains (.send "‹arg2›")) = true := by decide
 
 /-- a nil result ends the process normally; any error cancels, waits for the engine's tasks and ends in `log.Fatal`
 (exit status 1) -/
 theorem cli_outcomes :
     cliEngineReturned.map (fun p => (p.head?, p.filter (fun e => match e with | .call _ => true | _ => false))) =
-      [(some (.swc "err=nil"), []),
-       (some (.swc "err=err"), [.call "gracefulShutdown", .call "Wait", .call "Fatal"]),
-       (some (.swc "err=<none>"), [])] := by decide
+      [(some (.swc "‹rx:arg2@2›=nil"), []),
+       (some (.swc "‹rx:arg2@2›=‹rx:arg2@2›"), [.call "‹arg1›", .call "Wait", .call "Fatal"]),
+       (some (.swc "‹rx:arg2@2›=<none>"), [])] := by decide
+
+/-! ### `awaitPandoraTermination` is the model `Cli.run`
+
+Every regenerated path of the two cases of its outer select is read twice: as the list of events its selects (and
+the blocking `Engine.Wait`) consume, and as the list of actions it performs up to the first `log.Fatal` (which does not
+return; the extractor does not know that and goes on).  The model, run on the events, performs exactly these actions
+(`rcv` is a log line, which the extractor drops). -/
+
+/-- a path up to and including the first `log.Fatal` -/
+def untilFatal : Path → Path
+  | [] => []
+  | .call "Fatal" :: _ => [.call "Fatal"]
+  | e :: r => e :: untilFatal r
+
+/-- the names: `‹arg1›` = gracefulShutdown and `‹arg2›` = errs (parameters), `‹make(…,…)›` = the signal channel,
+`‹rx:…›` = a value received from that channel, `‹After(expr)›` = the timeout channel, `‹make(…)›` = waitDone -/
+def evOf : Ev → List Cli.Ev
+  | .swc "‹rx:make›=syscall.SIGINT" => [.sig .int]
+  | .swc "‹rx:make›=syscall.SIGTERM" => [.sig .term]
+  | .swc "‹rx:make›=default" => [.sig .other]
+  | .swc "‹rx:arg2@2›=nil" => [.err true]
+  | .swc "‹rx:arg2@2›=‹rx:arg2@2›" => [.err false]
+  | .comm "<-‹After(expr)›" => [.timeout]
+  | .comm "‹rx:make@2› := <-‹make(…,…)›" => [.sig .int]
+  | .comm "‹rx:make@3› := <-‹make(…,…)›" => [.sig .int]
+  | .comm "‹rx:arg2› := <-‹arg2›" => [.err false]
+  | .comm "<-‹make(…)›" => [.waitDone]
+  | .call "Wait" => [.waitDone]
+  | _ => []
+
+def actOf : Ev → List Cli.Act
+  | .call "‹arg1›" => [.shutdown]
+  | .go "Wait" => [.wait]
+  | .call "Wait" => [.wait, .waited]
+  | .comm "<-‹make(…)›" => [.waited]
+  | .call "Fatal" => [.exit 1]
+  | .ret _ => [.exit 0]
+  | _ => []
+
+def cliEvs (p : Path) : List Cli.Ev := (untilFatal p).flatMap evOf
+def cliActs (p : Path) : List Cli.Act := (untilFatal p).flatMap actOf
+
+/-- `Engine.Run` returned first: nil ⇒ exit 0; an error ⇒ shutdown, `Engine.Wait`, exit 1 -/
+theorem cli_returned_model :
+    (cliEngineReturned.filter (fun p => p.head? != some (.swc "‹rx:arg2@2›=<none>"))).all
+      (fun p => Cli.run (cliEvs p) == cliActs p) = true := by decide
+
+/-- a signal came first: every path through the nested selects -/
+theorem cli_signalled_model :
+    cliSignalled.all (fun p => (Cli.run (cliEvs p)).filter (· != .rcv) == cliActs p) = true := by decide
+
+/-- all three kinds of signal and all continuations are there (5 per handled signal) -/
+theorem cli_signalled_cases :
+    (cliSignalled.map (·.head?)).eraseDups =
+      [some (.swc "‹rx:make›=syscall.SIGINT"), some (.swc "‹rx:make›=syscall.SIGTERM"), some (.swc "‹rx:make›=default")] ∧
+    (cliSignalled.filter (fun p => p.head? == some (.swc "‹rx:make›=syscall.SIGINT"))).length = 5 ∧
+    (cliSignalled.filter (fun p => p.head? == some (.swc "‹rx:make›=syscall.SIGTERM"))).length = 5 := by decide
 
 end Pandora.Bridge.C05Engine
